@@ -11,6 +11,7 @@ mod ops_broadcast;
 mod ops_elem;
 mod ops_reduce;
 mod ops_bits;
+mod ops_linalg;
 
 use common::*;
 use std::io::{BufRead, Write};
@@ -21,6 +22,7 @@ fn dispatch(op: &str, ty: &str, args: &[Arg]) -> String {
     if let Some(r) = ops_broadcast::dispatch(op, ty, args) { return r; }
     if let Some(r) = ops_reduce::dispatch(op, ty, args) { return r; }
     if let Some(r) = ops_bits::dispatch(op, ty, args) { return r; }
+    if let Some(r) = ops_linalg::dispatch(op, ty, args) { return r; }
     if let Some(r) = ops_elem::dispatch(op, ty, args) { return r; }
     "bad".to_string()
 }
